@@ -400,7 +400,14 @@ impl Gen {
                 Op::Flush { c, stream: s, topic: tt, partition: 1 + self.rng.below(n.max(1) as u64) as u32, fsync: self.rng.chance(0.5) }
             }
             (3, _) => Op::RunJob(Job::Save),
-            (4, _) => Op::RunJob(Job::Maintain),
+            (4, _) => {
+                if self.cfg.send_then_restart_chance > 0.0 && self.rng.chance(0.3) {
+                    // act at once: a restart meets exactly what the retention pass left (a partition emptied by
+                    // it consists of one empty segment that does not start at 0)
+                    self.pending.push_back(Op::Restart(StopKind::GracefulDrained));
+                }
+                Op::RunJob(Job::Maintain)
+            }
             (5, Some(t)) if self.rng.chance(self.cfg.send_then_restart_chance) && !model.streams[&t.0].topics[&t.1].partitions.is_empty() => {
                 let (s, tt) = self.refs(&t);
                 let n = model.streams[&t.0].topics[&t.1].partitions.len() as u32;
